@@ -348,14 +348,18 @@ class SimFS(object):
 
 
 # ------------------------------------------------------------------------------------------------ inputs
-def gen_inputs(r, n_mut=None, n_samples=None, clustered=None, exotic=False):
+def gen_inputs(r, n_mut=None, n_samples=None, clustered=None, exotic=False, sample_scheme=None):
     n_mut = n_mut if n_mut is not None else r.choice([1, 2, 3, 4, 5, 6, 8])
     n_samples = n_samples if n_samples is not None else r.choice([1, 1, 2, 3])
     scheme = r.choice(["S", "S", "rev", "num"])
+    scheme = sample_scheme or scheme
     if scheme == "S":
         samples = ["S%d" % (i + 1) for i in range(n_samples)]
     elif scheme == "rev":
         samples = ["S10", "S2", "S1"][:n_samples]  # string order differs from numeric / file order
+    elif exotic:
+        b = r.choice(["2", "0", "7"])  # numeric ids (time points) one of which is a suffix of another: "2", "12", "112"
+        samples = r.sample([b, "1" + b, "11" + b, "2" + b, "21" + b], n_samples)
     else:
         samples = ["%d" % (7 * (i + 1)) for i in range(n_samples)]  # numeric-looking sample ids
     tc = {s: round(r.uniform(0.4, 1.0), 2) for s in samples}
@@ -837,9 +841,9 @@ def warm_up():
         run_summaries(h["image"], ("topology", None, True))
 
 
-def spec_from_seed(seed, boundary=True, chains=None, finite_clock=None, clustered=None, n_mut=None, n_samples=None, exotic=False):
+def spec_from_seed(seed, boundary=True, chains=None, finite_clock=None, clustered=None, n_mut=None, n_samples=None, exotic=False, sample_scheme=None):
     r = random.Random(seed)
-    inp = gen_inputs(r, clustered=clustered, n_mut=n_mut, n_samples=n_samples, exotic=exotic)
+    inp = gen_inputs(r, clustered=clustered, n_mut=n_mut, n_samples=n_samples, exotic=exotic, sample_scheme=sample_scheme)
     opts = gen_options(r, boundary=boundary)
     if chains is not None:
         opts["num_chains"] = chains
